@@ -24,10 +24,21 @@ PREFIX_OPS = ["temporal_breakdown", "comm_comp_overlap", "kernel_breakdown", "id
               "launch_stats_nomem", "with_counters", "decode_names", "call_graph", "kernel_sequences", "user_annotations", "critical_path"]
 
 
-def draw_prefix(rng: random.Random, p: float = 0.3) -> List[str]:
-    """With probability p a history of 1-3 earlier calls on the same TraceAnalysis object (never the re-parsing one, finding S1)."""
+_STATES: List[Dict[str, Any]] = []
+
+
+def draw_prefix(rng: random.Random, p: float = 0.4) -> List[str]:
+    """With probability p a history of 1-3 earlier calls on the same TraceAnalysis object (never the re-parsing one, finding S1).
+    Half of these are drawn per *state*: a shortest history to a uniformly chosen frame state of the Session model
+    (vf/session_states.json, generated from MC_Session), so that every property meets every state of the shared frames."""
     if rng.random() >= p:
         return []
+    if rng.random() < 0.5:
+        if not _STATES:
+            import json, os
+            _STATES.extend(json.load(open(os.path.join(os.path.dirname(os.path.dirname(os.path.abspath(__file__))), "session_states.json"))))
+        st = rng.choice([x for x in _STATES if x["cols"]])
+        return list(rng.choice(st["histories"]))
     return [rng.choice(PREFIX_OPS) for _ in range(rng.randint(1, 3))]
 
 
